@@ -20,7 +20,8 @@ OTHER_ATTRS = ["#[allow(unused)]", "#[inline]", '#[cfg(feature = "x")]', "#[must
 VIS = ["pub ", "", "pub(crate) ", "pub(super) "]
 RETS = [(None, ("void",)), ("String", ("str",)), ("i32", ("num",)), ("bool", ("bool",)), ("Result<String, String>", ("str",)),
         ("Vec<u8>", ("arr", ("num",))), ("Option<f64>", ("union", (("null",), ("num",)))), ("()", ("void",)), ("Result<(), String>", ("void",))]
-DIRS = ["", "commands", "commands/nested", "a/b/c/d", "my_target", "targets", "target_old", "git", "src_target/x", ".hidden", "mod.rs.d"]
+DIRS = ["", "commands", "commands/nested", "a/b/c/d", "my_target", "targets", "target_old", "git", "src_target/x", ".hidden", "mod.rs.d",
+        "with space/sub dir", "ünï/côdé", "日本", "a-b.c/d+e", "UPPER/Case", "x/" * 12 + "deep"]
 
 
 PARAM_LAYOUTS = [[], [("a", "i32")], [("a", "i32"), ("b", "String")], [("on_event", "Channel<String>")], [("on_a", "Channel<i32>"), ("on_b", "Channel<bool>")],
